@@ -1022,7 +1022,11 @@ class ExperimentTopology(Topology):
         # if this service peers with other services, remove their service ports facing us as well,
         # so they are not left without a peer (same as remove_network_service). Look the ports up
         # in the graph - some may be gone already if their nodes were pruned
-        for cp_id in self.graph_model.get_all_ns_or_link_connection_points(link_id=ns.node_id):
+        cp_ids = list(self.graph_model.get_all_ns_or_link_connection_points(link_id=ns.node_id))
+        # sub-interfaces go with their port, and may be connected to a network service of their own
+        for cp_id in list(cp_ids):
+            cp_ids.extend(self.graph_model.get_all_child_connection_points(interface_id=cp_id))
+        for cp_id in cp_ids:
             peer_ids = self.graph_model.find_peer_connection_points(node_id=cp_id)
             if peer_ids is None:
                 continue
